@@ -246,6 +246,7 @@ def r4(db, rep):
     cf = fn + "::compress"
     cb = db.mir.get(cf)
     rep.anchor(cb is not None, cf)
+    cf = cb["def"]       # the helper may have been moved (module-level function of a sibling module)
     ccfg = Cfg(cb)
     ctm = terms_of(db, cf, cache)
     rec = [i for i, t in mir_calls(cb) if mir_callee(t) == cf]
